@@ -1799,6 +1799,10 @@ void IGXMLScanner::resolveSchemaGrammar(const XMLCh* const loc, const XMLCh* con
         parser.setDoNamespaces(true);
         parser.setUserEntityHandler(fEntityHandler);
         parser.setUserErrorReporter(fErrorReporter);
+        // the schema document is an external resource of this parse: same entity and DTD policy
+        parser.setDisableDefaultEntityResolution(fDisableDefaultEntityResolution);
+        parser.setLoadExternalDTD(fLoadExternalDTD);
+        parser.setSecurityManager(fSecurityManager);
 
         //Normalize loc
         XMLBufBid nnSys(&fBufMgr);
@@ -2157,6 +2161,10 @@ Grammar* IGXMLScanner::loadXMLSchemaGrammar(const InputSource& src,
     parser.setDoNamespaces(true);
     parser.setUserEntityHandler(fEntityHandler);
     parser.setUserErrorReporter(fErrorReporter);
+    // the schema document is an external resource of this parse: same entity and DTD policy
+    parser.setDisableDefaultEntityResolution(fDisableDefaultEntityResolution);
+    parser.setLoadExternalDTD(fLoadExternalDTD);
+    parser.setSecurityManager(fSecurityManager);
 
     // Should just issue warning if the schema is not found
     bool flag = src.getIssueFatalErrorIfNotFound();
